@@ -936,6 +936,57 @@ pub fn base(rng: &mut Xo, prop: &str, seed: u64, index: u64, o: &GenOpts) -> Sce
             off += c.width();
         }
     }
+    // "already there" task: the goal target is the start configuration in ANOTHER REPRESENTATION
+    // (distance exactly 0, different bits: -0.0 / a denormal-squared offset in a coordinate that
+    // is 0, an angle a full turn away, the quaternion -q); the goal sampler returns that target,
+    // so trees get zero-length hops between states that are not bit-identical
+    if !o.canonical_only && !wb.sealed && !wb.start_invalid && wb.goal_comp.is_none() && !wb.translation_task && o.goal_sampler.is_none() && rng.chance(0.04) {
+        let mut s2 = wb.start.clone();
+        let mut t2 = wb.start.clone();
+        let mut changed = false;
+        let mut off = 0;
+        let bx = leading_box(&space);
+        for (k, c) in layout(&space).iter().enumerate() {
+            match c {
+                Comp::RV(n) => {
+                    for i in 0..*n {
+                        let b = if k == 0 { bx.as_ref().and_then(|b| b.get(i).copied()) } else { None };
+                        if let Some((lo, hi)) = b {
+                            if lo < 0.0 && hi > 0.0 && rng.chance(0.5) {
+                                s2[off + i] = 0.0;
+                                t2[off + i] = if rng.chance(0.5) { -0.0 } else { 1e-170 };
+                                changed = true;
+                            }
+                        }
+                    }
+                }
+                Comp::SO2 => {
+                    if rng.chance(0.7) {
+                        s2[off] = 0.0;
+                        t2[off] = 2.0 * PI * if rng.chance(0.5) { 1.0 } else { -1.0 };
+                        changed = true;
+                    }
+                }
+                Comp::SO3 => {
+                    if rng.chance(0.7) {
+                        for i in 0..4 {
+                            t2[off + i] = -s2[off + i];
+                        }
+                        changed = true;
+                    }
+                }
+            }
+            off += c.width();
+        }
+        geo.set_worlds(&[wb.world.clone()]);
+        let hd = crate::spaces::HMetric::new(&space).d(&s2, &t2);
+        if changed && s2 != t2 && hd == 0.0 && geo.d(&s2, &t2) == 0.0 && geo.valid(0, &s2) && geo.valid(0, &t2) && geo.in_bounds(&s2) && geo.in_bounds(&t2) {
+            wb.start = s2;
+            wb.target = t2;
+            sampler = GoalSampler::Fixed;
+            params.insert("start_on_goal".into(), 1.0);
+        }
+    }
     // half of the scenarios define obstacles and goal with the harness's own metric (never the
     // mirrored ones: the Python side measures with the wrapper's `distance`)
     let hm = !o.library_metric && rng.chance(0.5);
